@@ -633,7 +633,86 @@ func c17Receive(c *fw.Case, env *fw.Env, o *fw.Obs, p *c17Params) *fw.Obs {
 	if !check(valid, "valid") {
 		return o
 	}
-	c17Mutants(valid, p.Mut, rng, p.Budget, check)
+	if p.Mut == "forged" {
+		// well-formed objects that disagree with one another: the table object is re-encoded with one field changed
+		pr, _ := packfile.NewPackfileReader(io.NopCloser(bytes.NewReader(valid)))
+		type pobj struct {
+			t int
+			b []byte
+		}
+		var objs []pobj
+		for {
+			ot, b, err := pr.ReadObject()
+			if ot != 0 {
+				objs = append(objs, pobj{ot, b})
+			}
+			if err != nil {
+				break
+			}
+		}
+		repack := func(objs []pobj) []byte {
+			var nb bytes.Buffer
+			pw, _ := packfile.NewPackfileWriter(&nb)
+			for _, ob := range objs {
+				pw.WriteObject(ob.t, ob.b)
+			}
+			return nb.Bytes()
+		}
+		forge := func(name string, f func(t *objects.Table)) {
+			for i, ob := range objs {
+				if ob.t != packfile.ObjectTable {
+					continue
+				}
+				_, t, err := objects.ReadTableFrom(bytes.NewReader(ob.b))
+				if err != nil {
+					continue
+				}
+				f(t)
+				var tb bytes.Buffer
+				if pn := fw.Catch(func() { t.WriteTo(&tb) }); pn != "" {
+					continue
+				}
+				mod := append([]pobj(nil), objs...)
+				mod[i] = pobj{packfile.ObjectTable, tb.Bytes()}
+				check(repack(mod), fmt.Sprintf("forged-%s@obj%d", name, i))
+			}
+		}
+		forge("more-columns", func(t *objects.Table) { t.Columns = append(t.Columns, "extra1", "extra2") })
+		forge("fewer-columns", func(t *objects.Table) { t.Columns = t.Columns[:1] })
+		forge("no-columns", func(t *objects.Table) { t.Columns = nil; t.PK = nil })
+		forge("pk-out-of-range", func(t *objects.Table) { t.PK = []uint32{7} })
+		forge("pk-other-column", func(t *objects.Table) { t.PK = []uint32{1} })
+		forge("rows-plus-one", func(t *objects.Table) { t.RowsCount++ })
+		forge("rows-minus-one", func(t *objects.Table) {
+			if t.RowsCount > 0 {
+				t.RowsCount--
+			}
+		})
+		forge("index-sums-swapped", func(t *objects.Table) {
+			for i := range t.BlockIndices {
+				t.BlockIndices[i] = append([]byte(nil), t.Blocks[i]...)
+			}
+		})
+		forge("unknown-block", func(t *objects.Table) {
+			if len(t.Blocks) > 0 {
+				t.Blocks[0] = bytes.Repeat([]byte{0xAB}, 16)
+			}
+		})
+		// table first, then its blocks; commit first; objects dropped
+		if len(objs) > 1 {
+			rev := make([]pobj, len(objs))
+			for i := range objs {
+				rev[len(objs)-1-i] = objs[i]
+			}
+			check(repack(rev), "forged-reversed-order")
+			for i := range objs {
+				mod := append(append([]pobj(nil), objs[:i]...), objs[i+1:]...)
+				check(repack(mod), fmt.Sprintf("forged-drop-obj%d", i))
+			}
+		}
+	} else {
+		c17Mutants(valid, p.Mut, rng, p.Budget, check)
+	}
 	o.Key("receive/%s/%d", p.Mut, c.Seed%1000)
 	o.Sample = map[string]interface{}{"entry": "receive", "mutation": p.Mut, "packfile_bytes": len(valid), "inputs": o.Events["oracle_evaluations"], "rejected": o.Events["rejected_with_error"]}
 	return o
@@ -672,7 +751,7 @@ func init() {
 				}
 			}
 			for i := 0; i < l.N(2, 8); i++ {
-				for _, m := range []string{"truncate", "bitflip", "field", "splice"} {
+				for _, m := range []string{"truncate", "bitflip", "field", "splice", "forged"} {
 					l.Add("receive", c17Params{Entry: "receive", Mut: m, Budget: budget / 2}, 0)
 				}
 			}
